@@ -196,15 +196,17 @@ pub fn adversarial_names(m: &mut Model, rng: &mut Rng, density: f64, single: Opt
 fn bare_payloads(m: &mut Model, rng: &mut Rng) -> String {
     let mut defs = String::new();
     for (k, t) in m.terms.iter_mut().enumerate() {
+        // user types whose names contain keywords / the emitter's vocabulary as substrings
+        let name = format!("{}{k}", rng.pick_str(&["P", "P", "SelfP", "ItSelf", "NodeP", "TokP", "BoxedP", "StateP", "selfish_p", "EofP"]));
         match rng.below(5) {
             0 => t.ty = TypeExpr::Unit,
             1 => {
-                t.ty = TypeExpr::Generic(vec!["Vec".into()], vec![TypeExpr::path(&format!("crate::P{k}"))]);
-                defs.push_str(&format!("pub struct P{k};\n"));
+                t.ty = TypeExpr::Generic(vec!["Vec".into()], vec![TypeExpr::path(&format!("crate::{name}"))]);
+                defs.push_str(&format!("pub struct {name};\n"));
             }
             _ => {
-                t.ty = TypeExpr::path(&format!("crate::P{k}"));
-                defs.push_str(&format!("pub struct P{k};\n"));
+                t.ty = TypeExpr::path(&format!("crate::{name}"));
+                defs.push_str(&format!("pub struct {name};\n"));
             }
         }
     }
@@ -474,7 +476,7 @@ pub fn c06_case(seed: u64, idx: u64) -> Option<(Model, String, String)> {
     }
     crate::model::vary_member_names(&mut m, &mut rng);
     let src = m.render();
-    let lib = format!("#![allow(warnings)]\npub struct Pay(pub usize);\npub mod gen;\n{}", client_source(&m));
+    let lib = format!("#![allow(warnings)]\npub struct Pay(pub usize);\npub struct ItSelfNode(pub usize);\npub mod gen;\n{}", client_source(&m));
     Some((m, src, lib))
 }
 
@@ -640,7 +642,7 @@ impl Engine for Compile {
     fn rule(&self, prop: &str) -> String {
         match prop {
             "C05" => "inputs: accepted grammars (combinator-built and random, <=6 nonterminals) whose nonterminals, variants, terminals, terminal enum and named fields are renamed from adversarial pools: every helper name the emitter uses or might use (State Node Action RuleKind Eof Quasiterminal QuasiterminalKind NonterminalKind ACTION_TABLE GOTO_TABLE S Terminal Shift Reduce Accept R0 S0 Error Item Output ...), their uniquified forms (State2, Eof2 ...), letter-less names (__ _0 ___0), a 100-character name; field names from the emitter's own locals, parameters and functions (states nodes node t0 src top_state new_state rule_kind ...). First every single pool name alone in every role (systematic), then random mixes at densities 0.15-0.9. Excluded by the precondition: Rust keywords, Kiki's reserved words, 2021 prelude items, duplicate fields in one fieldset. Payload types are `pub struct P;` with no derive at all (also inside Vec<..>, and unit). One evaluation = one emitted module compiled with rustc --emit=metadata (warnings allowed, deny-by-default lints are errors). Distinct non-trivial = distinct sources containing at least one pool name.".into(),
-            _ => "inputs: accepted grammars with all fieldset patterns (named / tuple / empty, every used/skipped mask for <=3 fields systematically, random beyond), structs and enums, variant-less enums, 0..n terminals with payload types from a pool of 9 real types (up to four generic levels). One evaluation = one emitted module checked twice: (text) the emitted `pub enum`/`pub struct` items read token-wise must equal the expected shape (names, variants and used fields in order, Box<N> / payload type, pub on struct fields, unit-like when nothing is used) and `parse` must have the signature pub fn parse<X>(_: X) -> Result<Start, Option<Terminal>> where X: IntoIterator<Item = Terminal>; (types) a generated client outside the module constructs every type, destructures it without `..`, matches every enum without wildcard, ascribes each field its expected type, reads struct fields, builds each terminal from a value of the declared type and coerces parse to fn(Vec<T>), fn(Empty<T>) and fn(VecDeque<T>) -> Result<Start, Option<T>>, and must type-check. Distinct non-trivial = distinct declaration shapes (kind, style, mask, symbol kinds).".into(),
+            _ => "inputs: accepted grammars with all fieldset patterns (named / tuple / empty, every used/skipped mask for <=3 fields systematically, random beyond), structs and enums, variant-less enums, 0..n terminals with payload types from a pool of 12 real types (up to four generic levels, one with a keyword inside its name, pairs with equal argument lists under different callees). One evaluation = one emitted module checked twice: (text) the emitted `pub enum`/`pub struct` items read token-wise must equal the expected shape (names, variants and used fields in order, Box<N> / payload type, pub on struct fields, unit-like when nothing is used) and `parse` must have the signature pub fn parse<X>(_: X) -> Result<Start, Option<Terminal>> where X: IntoIterator<Item = Terminal>; (types) a generated client outside the module constructs every type, destructures it without `..`, matches every enum without wildcard, ascribes each field its expected type, reads struct fields, builds each terminal from a value of the declared type and coerces parse to fn(Vec<T>), fn(Empty<T>) and fn(VecDeque<T>) -> Result<Start, Option<T>>, and must type-check. Distinct non-trivial = distinct declaration shapes (kind, style, mask, symbol kinds).".into(),
         }
     }
     fn floors(&self, prop: &str, _tier: Tier, agg: &Agg) -> Vec<String> {
